@@ -1000,7 +1000,7 @@ func CheckC12(c *C12Case, st *Stats) error {
 
 func init() {
 	Register("C12",
-		"Go values of every supported dynamic type over full ranges (int8..int64, uint8..uint64 and uint up to MaxInt with width edges, float32 incl. subnormals/MaxFloat32/0.1f/-0, float64, string, bool, nil, Object and List by reference, the 7 slice and 7 map flavours incl. nil and empty and nil interface entries in the Object/List flavours, []any / map[string]any nested to depth 3, in one case of four holding ONE native map / slice / container instance at two places) and 30 unsupported types (time.Time, struct, pointer, typed nil pointers / func / chan, []int8, []byte, map[string]int8, map[int]string, array, complex, uintptr, chan, func, json.Number, named int/string, []uint, []float32, [][]any, ...), also nested inside []any/map[string]any, x 37 entry points (two of them spread one Go slice into two successive calls) (constructors, Add, Insert, Replace, Set, tree-form writes incl. padding and nested paths, the results of every Map variant on lists and objects incl. MapAsync, and NewListFrom/NewObjectFrom called directly). Oracle: an independent type switch in the harness gives the expected kind/value; Get returns exactly nil/int/float64/string/bool/Object/List, TypeOf agrees, the matching typed getter returns the value and the five others panic, content equals the expected tree bit-exactly, containers passed by reference keep identity; unsupported values make the call panic and leave a pre-existing container unchanged. Non-trivial = any value whose Go type is not already canonical. Distinct = distinct FNV-64a hash of the case JSON. Containers passed by reference are in one case of three user-defined types embedding Object / List (still kind object / list, identical value handed back); four more entry points store into hosts that come from a typed Go slice / map and have held one kind only (Insert, Replace, Add, Set).",
+		"Go values of every supported dynamic type over full ranges (int8..int64, uint8..uint64 and uint up to MaxInt with width edges, float32 incl. subnormals/MaxFloat32/0.1f/-0, float64, string, bool, nil, Object and List by reference, the 7 slice and 7 map flavours incl. nil and empty and nil interface entries in the Object/List flavours, []any / map[string]any nested to depth 3, in one case of four holding ONE native map / slice / container instance at two places) and 30 unsupported types (time.Time, struct, pointer, typed nil pointers / func / chan, []int8, []byte, map[string]int8, map[int]string, array, complex, uintptr, chan, func, json.Number, named int/string, []uint, []float32, [][]any, ...), also nested inside []any/map[string]any, x 37 entry points (two of them spread one Go slice into two successive calls) (constructors, Add, Insert, Replace, Set, tree-form writes incl. padding and nested paths, the results of every Map variant on lists and objects incl. MapAsync, and NewListFrom/NewObjectFrom called directly). Oracle: an independent type switch in the harness gives the expected kind/value; Get returns exactly nil/int/float64/string/bool/Object/List, TypeOf agrees, the matching typed getter returns the value and the five others panic, content equals the expected tree bit-exactly, containers passed by reference keep identity; unsupported values make the call panic and leave a pre-existing container unchanged. Non-trivial = any value whose Go type is not already canonical. Distinct = distinct FNV-64a hash of the case JSON. Containers passed by reference are in one case of three user-defined types embedding Object / List (still kind object / list, identical value handed back); four more entry points store into hosts that come from a typed Go slice / map and have held one kind only (Insert, Replace, Add, Set). Two more entry points map over a read-only list of 320 elements, the value being the callback result for the first element.",
 		GenC12, CheckC12).PreWriteIf = func(c any) bool {
 		cc, ok := c.(*C12Case)
 		return ok && (cc.Entry == "ListMapAsync" || cc.Entry == "ObjMapAsync")
